@@ -551,7 +551,41 @@ def k_gridded(c):
     return out
 
 
+def k_pointwise(c):
+    """A model is a pointwise function of (x, y): evaluating it on any 2-D coordinate arrays --
+    a mesh grid, a row-staggered grid, a grid jittered in its interior -- gives, element by
+    element, what the scalar call gives."""
+    name, p = c['model'], c['params']
+    m = _make(name, p)
+    x0, y0 = p['x_0'], p['y_0']
+    ny, nx = 5, 8
+    jj, ii = np.mgrid[0:ny, 0:nx].astype(float)
+    grids = {'mesh': (x0 - 3.5 + ii, y0 - 2.0 + jj),
+             'row-staggered': (x0 - 3.5 + ii + 0.5 * (jj % 2), y0 - 2.0 + jj),
+             'column-staggered': (x0 - 3.5 + ii, y0 - 2.0 + jj + 0.25 * (ii % 2)),
+             'interior-jitter': (x0 - 3.5 + ii + 0.375 * ((jj > 0) & (jj < ny - 1) & (ii > 0) & (ii < nx - 1)),
+                                 y0 - 2.0 + jj - 0.125 * ((jj > 0) & (jj < ny - 1) & (ii == 3)))}
+    out = []
+    for gname, (xx, yy) in grids.items():
+        v = np.asarray(m(xx, yy), float)
+        ok = v.shape == xx.shape
+        worst = 0.0
+        where = None
+        if ok:
+            for j in range(ny):
+                for i in range(nx):
+                    s_ = float(np.asarray(m(float(xx[j, i]), float(yy[j, i]))))
+                    dev = abs(v[j, i] - s_) - 1e-13 * abs(s_)
+                    if dev > worst:
+                        worst, where = dev, (j, i, float(v[j, i]), s_)
+        out.append((ok and worst <= 0.0, f'pointwise/{name}',
+                    f'{name}{p}: array evaluation on the {gname} grid differs from the scalar call '
+                    f'(row, column, array value, scalar value) = {where}', None))
+    return out
+
+
 _KINDS = {'prf_sum': k_prf_sum, 'prf_point': k_prf_point, 'psf_gauss_integral': k_psf_gauss_integral,
+          'pointwise': k_pointwise,
           'moffat': k_moffat, 'airy': k_airy, 'shape': k_shape, 'consistency': k_consistency,
           'imagepsf': k_imagepsf, 'gridded': k_gridded}
 
@@ -678,6 +712,13 @@ def run(ctx):
     for name, extra in shape_models:
         for (cx, cy) in [(0.0, 0.0), (0.25, -0.375), (12.5, 7.0)]:
             em.do({'kind': 'shape', 'model': name, 'params': dict(extra, flux=3.0, x_0=cx, y_0=cy)}, 'shape')
+    seen_pw = set()
+    for name, extra in shape_models:
+        if name in seen_pw and not ctx.thorough:
+            continue
+        seen_pw.add(name)
+        em.do({'kind': 'pointwise', 'model': name, 'params': dict(extra, flux=3.0, x_0=10.25, y_0=7.5)},
+              'pointwise-function-of-x-y')
 
     # 5. mutual consistency
     for fw in ([0.2, 0.5, 1.3, 4.0] if not ctx.thorough else widths):
